@@ -262,7 +262,14 @@ def observe(b, solver, lock):
         d = {}
         for var, lst in e.time_variables.items():
             if var == 'pwm':
-                d[var] = [float(x) for x in lst]
+                vals = []
+                for x in lst:
+                    if isinstance(x, (int, float)) and not isinstance(x, bool):
+                        vals.append(float(x))
+                    else:
+                        bad_kind.append((ei, var, type(x).__name__))
+                        vals.append(float('nan'))
+                d[var] = vals
                 continue
             kind = KIND_OF_VAR[var]
             vals = []
@@ -297,7 +304,10 @@ def observe(b, solver, lock):
                 except Exception as ex:  # noqa: BLE001
                     a[var] = f'!{type(ex).__name__}'
         if 'pwm' in e.time_variables:
-            a['pwm'] = float(e.pwm)
+            try:
+                a['pwm'] = float(e.pwm)
+            except Exception as ex:  # noqa: BLE001
+                a['pwm'] = f'!{type(ex).__name__}'
         attrs.append(a)
     o['attrs'] = attrs
     o['motor'] = {'w0': qsi(motor.no_load_speed), 'tmax': qsi(motor.maximum_torque),
